@@ -50,6 +50,26 @@ Proof.
 Qed.
 Print Assumptions C17_never_stale_refuted.
 
+(* Owner collection.  FULL STATEMENT: for all histories with Kill ops anywhere and every live computed k
+   whose last evaluation read nothing (directly or through the Computables it read) of a collected owner:
+   the read is not stale.  PROVED: for a collection at the end of any collection-free history and every
+   computed k that is clean at that moment: if its last evaluation read nothing of the collected owner o
+   (`indepf`: no remembered source on o, recursively through the remembered Computables) then k is alive
+   and reading it right after the collection returns its function's value under the NEW set of live
+   owners - so the refuted witness (a Computed that did read the collected owner) is the excluded case.
+   Missing: computeds that are dirty at the moment of collection, and histories that go on after it
+   (the comparison loop and rebuild in a state with dead owners are modelled and run in the
+   correspondence, but the invariant is proved for all-alive states only). *)
+Theorem C17_never_stale_unless_read_dead_owner_partial : forall prog nobs init pre o k,
+  no_kill pre = true -> (k < length prog)%nat ->
+  let st := final prog nobs (install prog (init_state init)) pre in
+  let st' := final prog nobs (install prog (init_state init)) (pre ++ [Kill o]) in
+  cowner prog k <> o -> dirty st k = false -> indepf prog (length prog) st o k = true ->
+  alive st' (cowner prog k) = true /\
+  snd (read_top prog st' k) = den prog (alive st') (store st') k.
+Proof. exact never_stale_after_kill. Qed.
+Print Assumptions C17_never_stale_unless_read_dead_owner_partial.
+
 (* the invariant behind it holds in every reachable state, so the same is true of every read a
    function performs through a chain (ev_ok), not only of top-level reads *)
 Theorem C17_never_stale_every_state_partial : forall prog st k,
@@ -234,4 +254,20 @@ Example C17_example_transitive_cycle :
   map fst (flat (parents st 0%nat)) = [SObs 0 0] /\ dirty st 0%nat = false /\ ps_mem 0 0 (ps st) = false /\
   snd (run_acts prog [AReadC 0; AWrite 0 0 9] st) = true /\
   dirty st' 0%nat = true /\ snd (run_acts prog [AReadC 0; AWrite 0 0 9] st') = false.
+Proof. vm_compute. repeat split. Qed.
+
+(* owner collection: c0 = A.x + 1 never read owner B (1), c1 = B.x + c0 did, c2 = c0 + c0 did not: collecting B
+   leaves c0 and c2 exact (hypotheses of C17_never_stale_unless_read_dead_owner_partial hold), c1 is the
+   refuted case *)
+Definition ex_kill : case :=
+  {| c_init := [[1]; [7]];
+     c_comps := [mkdef 0 (Add (Obs 0 0) (Const 1)); mkdef 0 (Add (Obs 1 0) (Comp 0)); mkdef 0 (Add (Comp 0) (Comp 0))];
+     c_ops := [] |}.
+Example C17_example_kill :
+  let prog := c_comps ex_kill in
+  let st := final prog [1%nat; 1%nat] (start ex_kill) [Assign 0 0 4; Read 1; Read 2] in
+  let st' := final prog [1%nat; 1%nat] (start ex_kill) ([Assign 0 0 4; Read 1; Read 2] ++ [Kill 1]) in
+  dirty st 2%nat = false /\ indepf prog 3 st 1 2 = true /\ indepf prog 3 st 1 0 = true /\ indepf prog 3 st 1 1 = false /\
+  snd (read_top prog st' 2) = 10 /\ den prog (alive st') (store st') 2 = 10 /\
+  snd (read_top prog st' 1) = 12 /\ den prog (alive st') (store st') 1 = 5.
 Proof. vm_compute. repeat split. Qed.
